@@ -29,7 +29,9 @@ CHUNK = 64
 
 
 def bounds(tier):
-    return {"area": "13 log points 1e-6..1", "gmax": "5 log points 0.1..10", "dgdt": "7 log points 1e2..1e5", "dt": "5 log points 1e-6..1e-4",
+    T_ = tier == "thorough"
+    return {"area": "%d log points 1e-6..1" % (25 if T_ else 13), "gmax": "%d log points 0.1..10" % (9 if T_ else 5),
+            "dgdt": "%d log points 1e2..1e5" % (13 if T_ else 7), "dt": "%d log points 1e-6..1e-4" % (9 if T_ else 5),
             "boundaries": "triangle/trapezoid switch area (ramppts*dt*gmax) and +-1 ulp; areas where ceil() arguments are integers, +-1 ulp; min_trap_grad: area = dgdt*dt^2/2 * {1/2, 1, 2}",
             "max samples": 2e5 if tier == "quick" else 2e6,
             "ramp lengths": "every ramp length 1..%d in both regimes (2 flat-top lengths), 2 (dgdt, dt) pairs" % (3000 if tier == "thorough" else 420),
@@ -42,10 +44,10 @@ def gen_cases(tier, seed):
     T = tier == "thorough"
     cap = 2e6 if T else 2e5
     cases = []
-    areas = np.logspace(-6, 0, 13)
-    gmaxs = np.logspace(-1, 1, 5)
-    dgdts = np.logspace(2, 5, 7)
-    dts = np.logspace(-6, -4, 5)
+    areas = np.logspace(-6, 0, 25 if T else 13)
+    gmaxs = np.logspace(-1, 1, 9 if T else 5)
+    dgdts = np.logspace(2, 5, 13 if T else 7)
+    dts = np.logspace(-6, -4, 9 if T else 5)
     skipped = 0
     for gmax, dgdt, dt in itertools.product(gmaxs, dgdts, dts):
         pts = [float(a) for a in areas]
